@@ -160,13 +160,31 @@ def clientLoginSend (password : Bytes) : Op Unit := do
   let r ← getReqID
   writePacket r 3#32 password
 
+/-- how `DialRCON` judges the id `r` of the login response against the request id it sent -/
+inductive LoginVerdict where
+  | ok          -- `r == c.ReqID`: err = nil
+  | loginFail   -- `r == -1`: "login fail"
+  | idMismatch  -- anything else: "req id not match"
+deriving DecidableEq, Repr
+
+/-- the three-way test at the end of `DialRCON`:
+`if r == c.ReqID { err = nil } else if r == -1 { "login fail" } else { "req id not match" }` -/
+def loginVerdict (reqID r : BitVec 32) : LoginVerdict :=
+  if r == reqID then .ok
+  else if r == -1#32 then .loginFail
+  else .idMismatch
+
+/-- the error `DialRCON` returns for a verdict: nil only for `ok` -/
+def verdictOp : LoginVerdict → Op Unit
+  | .ok => pure ()
+  | .loginFail => Op.fail
+  | .idMismatch => Op.fail
+
 /-- `DialRCON`, second half: read the response, then the three-way test on its id -/
 def clientLoginRecv : Op Unit := do
   let p ← readPacket
   let r ← getReqID
-  if p.id == r then pure ()
-  else if p.id == -1#32 then Op.fail   -- "login fail"
-  else Op.fail                         -- "req id not match"
+  verdictOp (loginVerdict r p.id)
 
 /-- `DialRCON` after the dial, with `ReqID` already drawn -/
 def clientLogin (password : Bytes) : Op Unit := do
